@@ -22,6 +22,7 @@ type SemRec struct {
 	Key    string    `json:"key"` // identity of the case
 	Pid    int       `json:"pid"`
 	Toks   []string  `json:"toks"`
+	Full   []string `json:"full"`
 	Stdin  [][]int   `json:"stdin"`
 	Repl   bool      `json:"repl"`
 	Status string    `json:"status"`
@@ -46,6 +47,8 @@ type SemOpts struct {
 	Strict     bool // C15 clauses on printed numbers
 	IgnoreOut  bool // only the outcome class matters (C07)
 	SkipNatlog bool
+	SoftKinds  bool                           // (internal) the type-error alternative of a soft cell: operand / index / call-misuse all fit
+	OnSoft     func(rec *SemRec, choice string) // called with "coerced" or "rejected" for every soft record that is explained
 	IgnoreLines bool // C18: layout changes move line numbers; only the kind of the first diagnostic is compared
 	BothStdinEndings bool // C19: run every case with and without a newline after the last input line
 	RunUnspec  bool // also run programs the specification stops judging (status unspec): only crash-freedom is checked
@@ -86,8 +89,46 @@ func expectedOut(rec *SemRec, actual string, o *SemOpts) []OutRec {
 	return exp
 }
 
+// softAlternative: a record whose run used a numeric-looking string as a number ("soft:<line>:<outlen>") also allows the
+// other reading of that two-valued cell - a type error exactly there, with the output up to that point.
+func softAlternative(rec *SemRec) *SemRec {
+	var ln, n int
+	if _, err := fmt.Sscanf(rec.Why, "soft:%d:%d", &ln, &n); err != nil || n > len(rec.Out) {
+		return nil
+	}
+	r2 := *rec
+	r2.Status = "error"
+	r2.Diags = []DiagRec{{Kind: "operand", Ln: ln}}
+	r2.Out = rec.Out[:n]
+	return &r2
+}
+
 // compareSem returns ("", "") if the observed behaviour is the prescribed one, otherwise a class and a detail.
 func compareSem(rec *SemRec, r *Result, o *SemOpts) (string, string) {
+	what, detail := compareSemCore(rec, r, o)
+	if !strings.HasPrefix(rec.Why, "soft:") || o.IgnoreOut {
+		return what, detail
+	}
+	choice := "coerced"
+	if what != "" {
+		alt := softAlternative(rec)
+		if alt == nil {
+			return what, detail
+		}
+		o2 := *o
+		o2.SkipNatlog, o2.SoftKinds = true, true
+		if w2, _ := compareSemCore(alt, r, &o2); w2 != "" {
+			return "soft:" + what, detail + " (a numeric-looking string was used as a number: neither the coerced continuation nor a type error at that point explains the run)"
+		}
+		choice = "rejected"
+	}
+	if o.OnSoft != nil {
+		o.OnSoft(rec, choice)
+	}
+	return "", ""
+}
+
+func compareSemCore(rec *SemRec, r *Result, o *SemOpts) (string, string) {
 	if r.Crash != "" {
 		if strings.HasPrefix(r.Crash, "hang") {
 			return "hang", firstLine(r.Crash)
@@ -124,7 +165,8 @@ func compareSem(rec *SemRec, r *Result, o *SemOpts) (string, string) {
 			return "diag-missing:" + want.Kind, fmt.Sprintf("expected a %s diagnostic at line %d, none was written", want.Kind, want.Ln)
 		}
 		got := classifyDiag(rd[0].Msg)
-		if got != "unclassified" && kindClass(got) != kindClass(want.Kind) {
+		softOK := o.SoftKinds && (kindClass(got) == "operand" || kindClass(got) == "index" || kindClass(got) == "call-misuse")
+		if got != "unclassified" && kindClass(got) != kindClass(want.Kind) && !softOK {
 			return "diag-kind:" + kindClass(want.Kind) + "->" + kindClass(got), fmt.Sprintf("expected %s at line %d, got %q [line %d]", want.Kind, want.Ln, rd[0].Msg, rd[0].Line)
 		}
 		if rd[0].Line != want.Ln && !o.IgnoreLines {
@@ -307,6 +349,18 @@ var reRuntimeLine = regexp.MustCompile(`(?m)^\[line (\d+)\]\s*$`)
 // compareSemCLI checks a whole-process run of the executable against the prescribed behaviour:
 // stdout bytes, exit status (0 / 70), diagnostics only on stderr, first diagnostic's line.
 func compareSemCLI(rec *SemRec, r *CLIRun, o *SemOpts) (string, string) {
+	what, detail := compareSemCLICore(rec, r, o)
+	if what != "" && strings.HasPrefix(rec.Why, "soft:") {
+		if alt := softAlternative(rec); alt != nil {
+			if w2, _ := compareSemCLICore(alt, r, o); w2 == "" {
+				return "", ""
+			}
+		}
+	}
+	return what, detail
+}
+
+func compareSemCLICore(rec *SemRec, r *CLIRun, o *SemOpts) (string, string) {
 	if r.Killed {
 		return "cli:no-termination", "the process did not finish within the time limit"
 	}
